@@ -38,6 +38,8 @@ def plan(tier, seed):
     for fam in ["basic", "plist", "pyobj", "xml", "csv", "file"]:
         specs.append({"stratum": f"family-{fam}", "family": fam, "n": per_f if fam != "file" else per_f // 3, "k": 0, "clean": True,
                       "all_options": fam in ("basic", "file")})
+    specs.append({"stratum": "list-options-on-the-first-tree-only", "family": "json", "n": 600 if q else 8000, "k": 0, "clean": True,
+                  "to_default": True})
     nsh = 4 if q else 8
     for k in range(nsh):
         specs.append({"stratum": "exhaustive-tiny", "exhaustive": True, "k": k, "of": nsh, "clean": True,
@@ -47,6 +49,15 @@ def plan(tier, seed):
 
 def gen_cases(spec, ctx):
     from gv.props import c01
+    if spec.get("to_default"):
+        # the restriction belongs to the list that is being edited (the first document's): the second tree is built with the
+        # default options here, as happens when the two documents come from different loaders or callers
+        for case in c01.gen_cases(spec, ctx):
+            case["ds"] = "auto"
+            case["le"] = ctx.rng.choice(["off", "same"])
+            case["to_default"] = True
+            yield case
+        return
     yield from c01.gen_cases(spec, ctx)
 
 
@@ -92,7 +103,12 @@ def check(case, ctx):
     nontrivial = False
     try:
         ta, tb = families.build(case)
-        if case["family"] in ("json", "basic", "plist", "pyobj", "file"):
+        if case.get("to_default"):
+            import graphtage.json as gj
+            tb = gj.build_tree(case["b"], graphtage.BuildOptions())
+            if ctx is not None:
+                ctx.count("second_tree_built_with_default_options")
+        if case["family"] in ("json", "basic", "plist", "pyobj", "file") and not case.get("to_default"):
             n = _plumbing(ta, ds, le, ctx, diags, "first") + _plumbing(tb, ds, le, ctx, diags, "second")
             if ctx is not None:
                 ctx.count("builder_nodes_checked", n)
